@@ -37,10 +37,11 @@ type Contract struct {
 	Assumes  []string // labels of global invariants assumed at entry
 	Events   []Clause // call-event ghosts: "event <ghost>: <expr>" appended at every call site
 	REvents  []Clause // like Events but the expression is evaluated over the results / post-state
-	Trusted  bool // contract is assumed, body not checked against it
+	Trusted  bool     // contract is assumed, body not checked against it
 	Reason   string
 	Props    []string
 	Safety   bool // also generate safety obligations when verifying this function
+	BorrowedResult string // name of the *bufio.Reader parameter whose buffer the first result may alias
 	NoInline bool
 	Line     int
 }
@@ -57,15 +58,16 @@ type ContractSet struct {
 	Lemmas     []Clause // SMT-level lemmas stated over spec functions (proved once)
 	TypeInvs   map[string][]Clause
 	FieldInvs  map[string][]Clause // "Struct.field" -> invariants over $v (assumed at loads, proved at stores)
+	ChanInvs   map[string][]Clause // invariant of the values travelling on channels of an element type: proved at sends, assumed at receives
 	FieldAsms  map[string][]Clause // lifecycle / configuration facts: assumed at loads in safety mode, never proved
 	Files      []string
 }
 
-var clauseKw = regexp.MustCompile(`^(func|iface|callback|spawn|fieldassume|fieldinv|safetyinv|sensures|srequires|revent|event|step|uses|assumes|assume|requires|ensures|modifies|loop|invariant|decreases|unroll|trusted|props|safety|noinline|global-invariant|lemma|typeinv|end)\b`)
+var clauseKw = regexp.MustCompile(`^(func|iface|callback|spawn|fieldassume|fieldinv|safetyinv|sensures|srequires|borrowed-result|chaninv|revent|event|step|uses|assumes|assume|requires|ensures|modifies|loop|invariant|decreases|unroll|trusted|props|safety|noinline|global-invariant|lemma|typeinv|end)\b`)
 
 // LoadContracts reads //@ comment blocks from the given files.
 func LoadContracts(files ...string) (*ContractSet, error) {
-	cs := &ContractSet{Funcs: map[string]*Contract{}, TypeInvs: map[string][]Clause{}, FieldInvs: map[string][]Clause{}, FieldAsms: map[string][]Clause{}, Files: files}
+	cs := &ContractSet{Funcs: map[string]*Contract{}, TypeInvs: map[string][]Clause{}, FieldInvs: map[string][]Clause{}, FieldAsms: map[string][]Clause{}, ChanInvs: map[string][]Clause{}, Files: files}
 	for _, f := range files {
 		if err := cs.loadFile(f); err != nil {
 			return nil, err
@@ -156,6 +158,17 @@ func (cs *ContractSet) loadFile(path string) error {
 				return err
 			}
 			cs.Lemmas = append(cs.Lemmas, c)
+		case "chaninv":
+			idx := strings.Index(r.text, ":")
+			if idx < 0 {
+				return fmt.Errorf("%s:%d: chaninv needs 'ElemType: expr'", path, r.line)
+			}
+			tn := strings.TrimSpace(r.text[:idx])
+			e, err := ParseSpec(strings.TrimSpace(r.text[idx+1:]))
+			if err != nil {
+				return fmt.Errorf("%s:%d: %v", path, r.line, err)
+			}
+			cs.ChanInvs[tn] = append(cs.ChanInvs[tn], Clause{Expr: e, Src: strings.TrimSpace(r.text[idx+1:]), Line: r.line})
 		case "fieldinv", "fieldassume", "safetyinv":
 			idx := strings.Index(r.text, ":")
 			if idx < 0 {
@@ -268,6 +281,8 @@ func (cs *ContractSet) loadFile(path string) error {
 				cur.Safety = true
 			case "noinline":
 				cur.NoInline = true
+			case "borrowed-result":
+				cur.BorrowedResult = strings.TrimSpace(r.text)
 			case "uses":
 				cur.Uses = append(cur.Uses, strings.Fields(strings.ReplaceAll(r.text, ",", " "))...)
 			case "assumes":
